@@ -287,6 +287,17 @@ class JobWatch:
         self.uninstall()
 
 
+def release(backend):
+    """free an in-memory backend (the sqlite database lives as long as the engine's connection pool)"""
+    try:
+        if backend.session is not None:
+            backend.session.close()
+        if backend.engine is not None:
+            backend.engine.dispose()
+    except Exception:  # noqa: BLE001
+        pass
+
+
 @contextlib.contextmanager
 def instrumented():
     log, watch = HashLog(), JobWatch()
